@@ -209,4 +209,67 @@ theorem crashSteps_append {a b : List Step} {d c : Disk} (h : Crash (stepsOps (a
   rw [stepsOps_append] at h
   exact crash_append h
 
+/-! ### membership facts about the request builders -/
+
+theorem convSave_mem (p : Pre) (inits : Bool) (n : Nat) (k : Contents) (n' : Nat) (b : Bytes)
+    (h : Step.isave p.r n' b ∈ convSave p inits n k) : b = k.convIndex := by
+  unfold convSave at h
+  split at h
+  · simp at h; exact h.2
+  · simp at h
+
+theorem ensureRepo_mem (p : Pre) (n : Nat) (k : Contents) (n' : Nat) (b : Bytes)
+    (h : Step.isave p.r n' b ∈ ensureRepo p n k) : b = k.initIndex := by
+  unfold ensureRepo repoInit at h
+  cases hm : p.mex <;> cases hD : p.D <;> cases hL : p.L <;> cases hI : p.I <;> simp_all
+
+theorem ensureRepo_no_rm (p : Pre) (n : Nat) (k : Contents) (q : Path) : Step.rm q ∉ ensureRepo p n k := by
+  unfold ensureRepo repoInit
+  cases p.mex <;> cases p.D <;> cases p.L <;> cases p.I <;> simp
+
+theorem ensureRepo_blob (p : Pre) (n : Nat) (k : Contents) (r a x : Nat) : ¬ touches (ensureRepo p n k) (.blob r a x) := by
+  unfold ensureRepo
+  cases hm : p.mex
+  · simp only [Bool.false_eq_true, if_false]
+    intro h
+    rcases repoInit_touches p n k _ h with ⟨e, _⟩ | ⟨e, _⟩ <;> cases e
+  · simpa using touches_nil
+
+theorem tail_blob (p : Pre) (k : Contents) (inits : Bool) (subj haveUp rhad rAlgDir : Bool) (ra rh ma mh : Nat)
+    (hne : ¬ (ra = ma ∧ rh = mh)) :
+    ¬ touches (convSave p inits 2 k ++ [Step.isave p.r 3 k.index1] ++
+      (if subj then respSave p k haveUp rhad rAlgDir 4 5 ra rh k.index2 else [])) (.blob p.r ma mh) := by
+  intro h
+  rcases touches_append h with h | h
+  · rcases touches_append h with h | h
+    · rw [touches_iff] at h
+      unfold convSave at h
+      split at h <;> simp [Step.target] at h
+    · have := touches_singleton h; simp [Step.target] at this
+  · cases subj
+    · simp at h; exact touches_nil h
+    · simp only [if_true, respSave] at h
+      rcases touches_append h with h | h
+      · cases rhad
+        · simp only [Bool.false_eq_true, if_false] at h
+          have := blobPush_touches _ _ _ _ _ _ _ _ h
+          cases this; exact hne ⟨rfl, rfl⟩
+        · simp at h; exact touches_nil h
+      · have := touches_singleton h; simp [Step.target] at this
+
+theorem emptyRemoval_mem (cands : List Cand) (stop : Bool) (s : Step) (h : s ∈ emptyRemoval cands stop) :
+    ∃ q, s = .rm q ∧ q ∈ cands.map Prod.fst := by
+  induction cands with
+  | nil => simp [emptyRemoval] at h
+  | cons cd rest ih =>
+    obtain ⟨q, f⟩ := cd
+    simp only [emptyRemoval, List.mem_cons] at h
+    rcases h with h | h
+    · exact ⟨q, h, by simp⟩
+    · split at h
+      · simp at h
+      · obtain ⟨q', e, hm⟩ := ih h
+        exact ⟨q', e, by simp [hm]⟩
+
+
 end Fs
